@@ -11,9 +11,12 @@ Dn(p) == Obs.designs[p]
 Findings(p) ==
   LET D == Dn(p).ast IN
   [emitted_once |-> EmittedOnce(D), bottom_up |-> NotBottomUp(D), port_map |-> PortMapDefects(D),
-   drivers |-> MultipleDrivers(D), variables |-> VariablesEscape(D)]
+   drivers |-> MultipleDrivers(D), variables |-> VariablesEscape(D),
+   declared_twice |-> DeclaredTwice(D), hides_predefined |-> HidesPredefined(D), undeclared |-> Undeclared(D),
+   out_port_read |-> OutPortRead(D), case_defects |-> CaseDefects(D), sensitivity |-> SensitivityDefects(D),
+   typing |-> IF Dn(p).typecheck = 1 THEN TypeDefects(D, Dn(p).top) ELSE {}]
 
-Clean(f) == f.emitted_once = {} /\ f.bottom_up = {} /\ f.port_map = {} /\ f.drivers = {} /\ f.variables = {}
+Clean(f) == \A k \in DOMAIN f : f[k] = {}
 
 ASSUME \A p \in 1..N : LET f == Findings(p) IN
           /\ (Clean(f) \/ PrintT(<<"VIOL", Dn(p).id, ToJson(f)>>))
